@@ -74,7 +74,9 @@ func fnClientSetName(ctx *cmdContext, args map[string]any) (output respValue, er
 		}
 	}
 
+	ctx.cs.mu.Lock()
 	ctx.cs.name = name
+	ctx.cs.mu.Unlock()
 	output.data = rstrOK
 	return
 }
